@@ -16,7 +16,7 @@ fn verif_fragment_emit_code_0(line: usize) -> (res: usize)
         res <= (if line >= 1 { line } else { 1 }),
 {
     let first =
-    max(1, line + 2);
+    max(1, line.saturating_sub(2));
     first
 }
 } // verus!
